@@ -299,6 +299,28 @@ CLAIMED = {
     },
 }
 
+# search steps and scope additions that are not part of the proofs (they widen what the correspondence
+# and the independent oracle see, and how a concrete failing input is looked for when a tie breaks)
+EXTRA_NOTES = {
+    "C01": " Deep degenerate shapes (chains, zigzags and combs of 70 and 140 levels) are part of the corpus; each tree is swapped with a partner anchored at a second hook of the elements and both objects are used afterwards (swap/alt); after a model/implementation difference the check runs random erase-heavy continuations of the minimised difference.",
+    "C02": " Trees are swapped with a partner anchored at a second hook and both objects are used afterwards; random continuations after a difference (latent colouring damage shows as a crash of a later erase).",
+    "C05": " `smany`: 70 000 co-owners and weak references of one allocation come and go, every step judged inside the harness (counters narrower than size_t); the harness reads its mirrors of the private structs only from blocks of the expected size.",
+    "C06": " The shadow <stdatomic.h> also accepts the _explicit forms and names a weaker-than-seq_cst order in the trace (the SC model then no longer corresponds); when the correspondence or a tie is broken and no SC schedule fails, the scenarios run on real threads under ThreadSanitizer and a reported race is the replay (conc.tsan_search). Scripts in which the clear callback re-enters cstl_weak_ptr_lock run on the implementation only and are judged for termination and the 1/1/1 clear/free ledger (the model's callback is a single step; a re-entrant callback is one particular interleaving of the model).",
+    "C07": " `bulk n`: 300 000 (thorough: up to 2 200 000) pushes then pops on one heap, size/get/pop judged at every step inside the harness against a counting ledger, the pop order compared with the model by checksum (slot numbers with long zero runs exist only beyond 131 072 elements). The comparison function returns magnitudes that do not follow the order; the heap is swapped with a partner anchored at a second hook and both objects are used (swap/alt).",
+    "C08": " One key object is the NULL pointer and one value object is NULL (looked up through NULL as well); the map's comparison function looks both keys up in a second map (nested library calls); erase is also called with a NULL iterator; random erase-heavy continuations after a difference.",
+    "C09": " One function may be registered as both constructor and destructor (init flag 7); element sizes 1-64.",
+    "C11": " Element sizes include 33, 36 and 40 bytes (word-wise exchanges with a tail); the comparison function returns magnitudes that do not follow the order.",
+    "C12": " `bigsort`: lists of 1024-5000 (thorough: up to 70 000) elements sorted and judged element by element inside the harness (both directions), final order compared with the model's sequence-level merge sort by checksum; a traversal whose visit function moves the removed elements to another list runs on the implementation only (independent oracle); traversal stop values are negative for odd stop positions; list 2 lives on the compile-time initializer only.",
+    "C13": " `bigsort` as for C12 (tail checked by a push_back afterwards); stop values negative for odd stop positions; list 2 lives on the compile-time initializer only.",
+    "C14": " `amany`: 70 000 views of one buffer come and go (release must be refused meanwhile), judged inside the harness.",
+    "C15": " Second map closure that distinguishes the stored key/value pointers (NULL key, NULL value); comb-shaped and 140-level deep trees.",
+    "C17": " Caller-supplied hash functions include ones that are in range for one table size and out of range for another, and ones out of range by a multiple of 2^32; the fail-stop judgement is taken from the hash-call log (any call that returned >= m must have aborted the operation).",
+    "C20": " The table includes the same stray copy in both argument positions and a co-argument that shares the allocation of the copy's original.",
+}
+INIT_NOTE = (" Initial states: objects are filled with 0xA5 before their init function runs, one object of every kind lives on the "
+             "header's compile-time initializer only (or a statically initialised twin is compared with the init function's result), "
+             "and the stack is dirtied before every operation.")
+
 PENDING_REASON = "check under construction in this session: not yet claimed (Lean proof + correspondence machinery for it is not committed yet)"
 
 ALL = ["C%02d" % i for i in range(1, 21)]
@@ -318,7 +340,7 @@ def main():
             "replay_cmd_template": "python3 tools/check.py %s --replay {path}" % pid,
             "engine": "lean4-proof+correspondence",
             "level_claimed": {"category": "proof", "text": c["text"], "design_ref": c["design_ref"]},
-            "level_note": c["note"],
+            "level_note": c["note"] + EXTRA_NOTES.get(pid, "") + (INIT_NOTE if pid not in ("C06", "C17", "C18") else ""),
             "technique": c["technique"],
         })
     man = {
